@@ -478,7 +478,12 @@ impl TestRunnerMemoryAccessor {
 
 impl MemoryAccessor for TestRunnerMemoryAccessor {
     fn read(&mut self, address: u16, len: usize) -> Vec<u8> {
-        self.ram.read().unwrap().ram[address as usize..address as usize + len].to_vec()
+        // A read that would run past the end of memory returns the bytes that exist (so 'ram16($ffff)' has no
+        // value, and an assertion using it fails, instead of panicking on the slice)
+        let ram = self.ram.read().unwrap();
+        let start = address as usize;
+        let end = (start + len).min(ram.ram.len());
+        ram.ram[start..end].to_vec()
     }
 
     fn write(&mut self, _address: u16, _bytes: &[u8]) {
